@@ -28,8 +28,9 @@ THEOREMS = [
     "C37.gwrt_asis_zero_delay_counter",
 ]
 RULE = ("each factory subscribed at a generated virtual time on a TestScheduler and disposed at a generated time: integer ranges "
-        "(1/2/3-argument forms, negative steps, empty, step 0, lengths around the scheduler's 100-item spin limit), iterables (incl. "
-        "falsy items and an iterator that raises), return_value/empty/never/throw, generate and generate_with_relative_time with "
+        "(1/2/3-argument forms, negative steps, empty, step 0, lengths around the scheduler's 100-item spin limit), iterables of every "
+        "type (list, tuple, str, range, deque, set, frozenset, dict and its views, generator, iterator, classes with only __iter__ / with "
+        "__len__ and __iter__) at lengths 0, 1, 2, n against list(iter(x)) (incl. falsy items and an iterator that raises), return_value/empty/never/throw, generate and generate_with_relative_time with "
         "condition/iterate/time-mapper tables over a small state space (raising entries; delays 0, ints, integral floats, timedeltas, "
         "timedelta(0)), timer(d) with d <= 0 and > 0 in int/float/timedelta form, repeat_value(v, n) with n in {None,-1,-3,0..}; the "
         "recorded (time, notification) list is compared with the model's virtual-time run. non-trivial = at least two notifications "
@@ -42,6 +43,82 @@ ASSUMPTIONS = [
 
 FALSY = [None, 0, 0.0, False, "", (), [], {}]
 VALS = FALSY + [1, "a", 2, (1, 2), -1]
+
+
+ITFORMS = ["list", "tuple", "str", "range", "deque", "set", "frozenset", "dict", "dict_keys", "dict_values", "dict_items", "gen", "iter",
+           "cls_iter", "cls_len_iter", "set", "frozenset", "dict", "dict_keys"]
+HASHABLE = [None, 0, 1, 2, 3, 7, -1, 10, (1, 2), (), 42]       # deterministic hashes (no str: hash randomisation), pairwise unequal
+
+
+def _gen_iterable(rng, form, size):
+    """{"items": what list(iter(x)) yields (encoded), + what is needed to rebuild x deterministically}"""
+    if form == "str":
+        return {"items": [rng.choice("abc01 ") for _ in range(size)]}
+    if form == "range":
+        a = rng.randrange(-3, 4)
+        return {"items": list(range(a, a + size))}
+    if form in ("set", "frozenset"):
+        items = list(set(rng.sample(HASHABLE, min(size, len(HASHABLE)))))
+        if list(set(items)) != items:          # iteration order must be reproducible from the listed order
+            items = list(range(len(items)))
+        return {"items": [enc(x) for x in items]}
+    if form in ("dict", "dict_keys"):
+        keys = rng.sample(HASHABLE, min(size, len(HASHABLE)))
+        if size == 1 and rng.random() < 0.4:
+            keys = [0]
+        return {"items": [enc(k) for k in keys], "aux": [enc(rng.choice(["zero", None, 5, "v"])) for _ in keys]}
+    if form == "dict_values":
+        return {"items": [enc(rng.choice(VALS)) for _ in range(size)]}
+    if form == "dict_items":
+        keys = rng.sample(HASHABLE, min(size, len(HASHABLE)))
+        return {"items": [enc((k, rng.choice(["zero", None, 5]))) for k in keys]}
+    return {"items": [enc(rng.choice(VALS)) for _ in range(size)]}
+
+
+class _OnlyIter:
+    def __init__(self, items):
+        self._items = items
+
+    def __iter__(self):
+        return iter(self._items)
+
+
+class _LenIter(_OnlyIter):
+    def __len__(self):
+        return len(self._items)
+
+
+def _container(form, items, aux):
+    from collections import deque
+    if form == "tuple":
+        return tuple(items)
+    if form == "str":
+        return "".join(items)
+    if form == "range":
+        return range(items[0], items[0] + len(items)) if items else range(0)
+    if form == "deque":
+        return deque(items)
+    if form == "set":
+        return set(items)
+    if form == "frozenset":
+        return frozenset(items)
+    if form == "dict":
+        return dict(zip(items, aux))
+    if form == "dict_keys":
+        return dict(zip(items, aux)).keys()
+    if form == "dict_values":
+        return dict(enumerate(items)).values()
+    if form == "dict_items":
+        return dict(items).items()
+    if form == "gen":
+        return (x for x in items)
+    if form == "iter":
+        return iter(items)
+    if form == "cls_iter":
+        return _OnlyIter(items)
+    if form == "cls_len_iter":
+        return _LenIter(items)
+    return list(items)
 
 
 def _times(rng):
@@ -119,14 +196,21 @@ def _cases(rng, tier):
         sub, disp = _times(rng)
         yield {"op": "src", "kind": "range", "start": 0, "stop": rng.choice([95, 99, 100, 101, 102, 150, 205, 320]), "step": 1,
                "sub": sub, "disp": rng.choice([10000, sub + 1, sub + 2])}
-    # ---- iterables
-    for _ in range(250 * n):
-        items = [rng.choice(VALS) for _ in range(rng.choice([0, 0, 1, 2, 3, 5, 8]))]
+    # ---- iterables: every iterable TYPE at lengths 0, 1, 2, n; the reference is list(iter(x))
+    for _ in range(450 * n):
         sub, disp = _times(rng)
-        kind = rng.choice(["of", "from_iterable", "from_iterable"])
-        yield {"op": "src", "kind": kind, "items": [enc(x) for x in items],
-               "fails": (rng.choice([None, None, None, "iterboom"]) if kind == "from_iterable" else None),
-               "itform": rng.choice(["list", "tuple", "gen", "iter"]), "sub": sub, "disp": disp}
+        kind = rng.choice(["of", "from_iterable", "from_iterable", "from_iterable", "from_iterable"])
+        size = rng.choice([0, 1, 1, 1, 1, 2, 2, 3, 5, 8])
+        if kind == "of":
+            yield {"op": "src", "kind": kind, "items": [enc(rng.choice(VALS)) for _ in range(size)], "fails": None, "itform": "tuple",
+                   "sub": sub, "disp": disp}
+            continue
+        form = rng.choice(ITFORMS)
+        c = {"op": "src", "kind": kind, "fails": None, "itform": form, "sub": sub, "disp": disp}
+        c.update(_gen_iterable(rng, form, size))
+        if form in ("list", "iter") and rng.random() < 0.25:
+            c["fails"] = "iterboom"
+        yield c
     # ---- constants
     for _ in range(120 * n):
         sub, disp = _times(rng)
@@ -172,7 +256,7 @@ def cases(rng, tier):
 
 
 def model_request(case):
-    return {k: v for k, v in case.items() if k not in ("itform", "dform", "as_string")}
+    return {k: v for k, v in case.items() if k not in ("itform", "dform", "as_string", "aux")}
 
 
 # ----- real code ------------------------------------------------------------------------------
@@ -226,13 +310,12 @@ def build(case):
         if case.get("fails"):
             return rx.from_iterable(_FailingIter(items, case["fails"]))
         form = case.get("itform", "list")
-        if form == "tuple":
-            return rx.from_iterable(tuple(items))
-        if form == "gen":
-            return rx.from_iterable(x for x in items)   # one-shot: subscribed once here
-        if form == "iter":
-            return rx.from_iterable(iter(items))
-        return rx.from_iterable(items)
+        x = _container(form, items, [fw.dec(a) for a in case.get("aux", [])])
+        if form not in ("gen", "iter"):          # the reference is list(iter(x)): the case must list exactly that
+            ref = [enc(v) for v in iter(x)]
+            if fw.key(ref) != fw.key(case["items"]):
+                raise AssertionError(f"harness: list(iter(x)) = {ref} differs from the case's items {case['items']}")
+        return rx.from_iterable(x)
     if k == "return_value":
         return rx.return_value(fw.dec(case["value"]))
     if k == "empty":
@@ -462,6 +545,8 @@ def bucket(case, out):
         yield "quiet(chain compared)"
     if k == "range" and case.get("step") is not None and case["step"] < 0:
         yield "range:negative-step"
+    if k == "from_iterable":
+        yield "iterable:" + case.get("itform", "list") + ":len=" + (str(len(case["items"])) if len(case["items"]) <= 2 else "n")
     if k == "gwrt":
         if any(r == 0 or r == {"f": "0.0"} or r == {"t": [".td", 0]} for _, r in case["tm"]["tab"]):
             yield "gwrt:has-zero-delay"
